@@ -26,6 +26,9 @@ CONSTANTS
   NSamples,        \* samples evaluated per program
   AllowStatefulInBranchArm,   \* known finding C05/C03: cursor bookkeeping of if arms
   AllowStatefulInLambda,      \* known finding C02: state of closures
+  DelayTimes,                 \* "std" | "withzero": the <<n, t>> pairs of the delay production
+                              \* (t = 0 is outside C02's statement but inside C01's)
+  GlobalSet,                  \* "none" | "stateful": a global constant initialised through a stateful call
   AllowProjAsFeedResult       \* known findings C01: wasmgen mishandles a function whose result is
                               \* directly a tuple projection (invalid module when the function uses
                               \* `self`; a pointer instead of the value when a parameter is projected)
@@ -72,10 +75,15 @@ Slot(ty, n, p, f, asg, slf, st) ==
   [ty |-> ty, n |-> n, p |-> p, f |-> f, asg |-> asg, slf |-> slf, st |-> st]
 With(s, ty) == [s EXCEPT !.ty = ty]
 
+GlobalNames == IF GlobalSet = "stateful" THEN {"g1"} ELSE {}
+Globals == IF GlobalSet = "stateful"
+           THEN << [x |-> "g1", a |-> Bin("*", Call("counter", <<Lit(1)>>), Lit(100))] >>
+           ELSE <<>>
+
 RootSlot ==
   IF Template = "dsp"
-  THEN Slot("N", IF UseInput THEN {"x"} ELSE {}, {}, {}, {}, "none", TRUE)
-  ELSE Slot("N", {"x"}, {}, {}, {}, "N", TRUE)
+  THEN Slot("N", (IF UseInput THEN {"x"} ELSE {}) \cup GlobalNames, {}, {}, {}, "none", TRUE)
+  ELSE Slot("N", {"x"} \cup GlobalNames, {}, {}, {}, "N", TRUE)
 
 Init == toks = <<>> /\ pend = <<RootSlot>> /\ nv = 0
 
@@ -107,7 +115,9 @@ FillN(s) ==
   \/ \E op \in Ops : Put([k |-> "bin", op |-> op], <<s, s>>, 0)
   \/ Has("if") /\ Put([k |-> "if"], <<s, Arm(s), Arm(s)>>, 0)
   \/ Has("mem") /\ s.st /\ Put([k |-> "mem"], <<s>>, 0)
-  \/ Has("delay") /\ s.st /\ \E nt \in {<<2, 1>>, <<3, 2>>} :
+  \/ Has("delay") /\ s.st /\ \E nt \in (IF DelayTimes = "withzero"
+                                              THEN {<<2, 1>>, <<3, 2>>, <<2, 0>>, <<3, 0>>}
+                                              ELSE {<<2, 1>>, <<3, 2>>}) :
         Put([k |-> "delay", n |-> nt[1], t |-> nt[2]], <<s>>, 0)
   \/ \E f \in Helpers : /\ Sig[f].ret = "N" /\ (Sig[f].st => s.st)
                         /\ Put([k |-> "call", f |-> f],
@@ -198,6 +208,7 @@ Body == ParseAt(toks, 1).e
 UsesSelf(ts) == \E i \in 1..Len(ts) : ts[i].k = "self"
 
 UsedHelpers == {f \in DOMAIN Prelude : \E i \in 1..Len(toks) : toks[i].k = "call" /\ toks[i].f = f}
+                 \cup (IF GlobalSet = "stateful" THEN {"counter"} ELSE {})
                  \cup (IF \E i \in 1..Len(toks) : toks[i].k = "var" /\ toks[i].x = "dbl" THEN {"dbl"} ELSE {})
 Closure(H) == H \cup (IF "nest" \in H THEN {"counter", "lag"} ELSE {})
 
@@ -210,7 +221,7 @@ Prog ==
                    dsp |-> [ps |-> IF UseInput THEN <<"x">> ELSE <<>>, self |-> FALSE,
                             b |-> Bin("+", Call("f", <<IF UseInput THEN Var("x") ELSE Lit(1)>>),
                                            Bin("*", Call("f", <<NowE>>), Lit(100)))]]
-  IN [nout |-> 1, globals |-> <<>>,
+  IN [nout |-> 1, globals |-> Globals,
       fns |-> [f \in (DOMAIN hs) \cup (DOMAIN gen) |-> IF f \in DOMAIN gen THEN gen[f] ELSE hs[f]]]
 
 (* two input streams when dsp has an input *)
